@@ -6,6 +6,11 @@ import (
 
 	"github.com/canopy-network/canopy/fsm"
 	"github.com/canopy-network/canopy/lib"
+	"github.com/canopy-network/canopy/lib/crypto"
+	"github.com/ethereum/go-ethereum/common"
+	ethTypes "github.com/ethereum/go-ethereum/core/types"
+	"google.golang.org/protobuf/proto"
+	"google.golang.org/protobuf/reflect/protoreflect"
 )
 
 // Helpers shared with the C19 decoder driver.
@@ -108,4 +113,132 @@ func (p *Probe) CheckTx(raw []byte, hash string) lib.ErrorI {
 	_, err := p.c.sm.CheckTx(raw, hash, nil)
 	p.c.sm.Reset()
 	return err
+}
+
+// ---- RLP-backed transactions for the C19 wrapper-binding family -----------------------------------
+
+// EthWrapped is an honest RLP-backed Canopy transaction: the raw signed Ethereum transaction and the
+// wrapper the repository's own conversion produces for it.
+type EthWrapped struct {
+	Name  string
+	V2    bool
+	EthTx []byte
+	Tx    *lib.Transaction
+	Raw   []byte
+	Pub   []byte // the signer's canonical (64-byte) key
+}
+
+// EthWrappedCorpus: legacy-type and typed Ethereum transactions x (RLP, RLP.V2) x (plain transfer,
+// subsidy call whose authorized signer is named inside the signed data).
+func EthWrappedCorpus() []EthWrapped {
+	k, err := newSigner("ethsecp256k1", "rlp-sender")
+	if err != nil {
+		panic(err)
+	}
+	ek := k.priv.(*crypto.ETHSECP256K1PrivateKey)
+	one := new(big.Int).Mul(big.NewInt(int64(amount)), scale)
+	var out []EthWrapped
+	for _, v2 := range []bool{false, true} {
+		evm := fsm.CanopyIdsToEVMChainId(chainID, netID)
+		memo := "RLP"
+		if v2 {
+			evm, _ = fsm.CanopyIdsToEVMChainIdV2(chainID, netID)
+			memo = "RLP.V2"
+		}
+		for _, payload := range []string{"transfer", "subsidy"} {
+			to := common.BytesToAddress(recipient)
+			value := one
+			var data []byte
+			if payload == "subsidy" {
+				to = common.HexToAddress(fsm.CNPYContractAddress)
+				value = big.NewInt(0)
+				sub, e := lib.Marshal(&fsm.MessageSubsidy{Address: k.addr, ChainId: chainID, Amount: amount, Opcode: []byte("note")})
+				if e != nil {
+					panic(e)
+				}
+				sel, _ := lib.StringToBytes(fsm.SubsidySelector)
+				data = append(sel, sub...)
+			}
+			for _, typed := range []bool{false, true} {
+				var inner ethTypes.TxData
+				if typed {
+					tip := new(big.Int).Set(scale)
+					inner = &ethTypes.DynamicFeeTx{ChainID: new(big.Int).SetUint64(evm), Nonce: 1, GasTipCap: tip,
+						GasFeeCap: new(big.Int).Add(tip, big.NewInt(fsm.EthereumBaseFeePerGas)), Gas: 50000, To: &to, Value: value, Data: data}
+				} else {
+					inner = &ethTypes.LegacyTx{Nonce: 1, GasPrice: new(big.Int).Set(scale), Gas: 50000, To: &to, Value: value, Data: data}
+				}
+				signed, e := ethTypes.SignTx(ethTypes.NewTx(inner), ethTypes.LatestSignerForChainID(new(big.Int).SetUint64(evm)), ek.PrivateKey)
+				if e != nil {
+					panic(e)
+				}
+				bz, _ := signed.MarshalBinary()
+				var tx *lib.Transaction
+				var ce lib.ErrorI
+				if v2 {
+					tx, ce = fsm.RLPToCanopyTransactionV2(bz)
+				} else {
+					tx, ce = fsm.RLPToCanopyTransaction(bz)
+				}
+				if ce != nil {
+					continue
+				}
+				raw, e2 := lib.Marshal(tx)
+				if e2 != nil {
+					panic(e2)
+				}
+				kind := "legacy-type"
+				if typed {
+					kind = "typed"
+				}
+				out = append(out, EthWrapped{Name: memo + "/" + kind + "/" + payload, V2: v2, EthTx: bz, Tx: tx, Raw: raw, Pub: k.pub})
+			}
+		}
+	}
+	return out
+}
+
+// OtherEthKey: another valid Ethereum key in canonical encoding, and its address.
+func OtherEthKey() (pub, addr []byte) {
+	k, err := newSigner("ethsecp256k1", "other-claimed-signer")
+	if err != nil {
+		panic(err)
+	}
+	return k.pub, k.addr
+}
+
+// FieldVariants: the canonical marshalling of tx with exactly one field (other than the signature
+// container) set to another value.
+func FieldVariants(tx *lib.Transaction) (names []string, txs []*lib.Transaction) {
+	fields := tx.ProtoReflect().Descriptor().Fields()
+	for i := 0; i < fields.Len(); i++ {
+		fd := fields.Get(i)
+		name := string(fd.Name())
+		if name == "signature" {
+			continue
+		}
+		c := proto.Clone(tx).(*lib.Transaction)
+		m := c.ProtoReflect()
+		v := m.Get(fd)
+		switch {
+		case fd.Kind() == protoreflect.Uint64Kind:
+			m.Set(fd, protoreflect.ValueOfUint64(v.Uint()+1))
+		case fd.Kind() == protoreflect.StringKind:
+			m.Set(fd, protoreflect.ValueOfString(v.String()+"x"))
+		case fd.Kind() == protoreflect.MessageKind && c.Msg != nil:
+			c.Msg.Value = append(append([]byte{}, c.Msg.Value...), 0x30, 0x01) // one more field in the payload
+		default:
+			continue
+		}
+		names, txs = append(names, name), append(txs, c)
+	}
+	return
+}
+
+// VerifyRLP is the real StateMachine.VerifyRLPBytes.
+func (p *Probe) VerifyRLP(tx *lib.Transaction) lib.ErrorI { return p.c.sm.VerifyRLPBytes(tx) }
+
+// CheckSignature is the real StateMachine.CheckSignature (no batch verifier).
+func (p *Probe) CheckSignature(tx *lib.Transaction, authorized [][]byte) (crypto.AddressI, lib.ErrorI) {
+	return p.c.sm.CheckSignature(tx, authorized, nil)
 }
